@@ -36,6 +36,16 @@ def guard_lt(prog, b, idx, call, len_field_pred):
     return None, None
 
 
+def pred_base(v, fields):
+    base = strip(v)
+    while base.kind == 'call' and base.callee_name() in ('deref', 'deref_mut'):
+        base = strip(base.args[0])
+    if base.kind not in ('ref', 'load'):
+        return False
+    f = base.fields()
+    return bool(f) and f[-1] == fields[-1]
+
+
 def run(ctx):
     prog = ctx.prog
     n_list = n_seg = 0
@@ -112,6 +122,24 @@ def run(ctx):
                 return bool(f) and f[-1] == fields[-1]
             lencall, sw = guard_lt(prog, b, idx, c, pred)
             if lencall is None:
+                # (c) the index is produced by iterating the range lo..len(vector): below len by construction, as long as
+                #     nothing shrinks the vector inside the loop
+                from rules.reset import iterator_source
+                rng_ok = False
+                if idx.kind == 'load' and tuple(idx.fields()) == ('as:Some', '0') and strip(idx.args[0]).kind == 'call' and strip(idx.args[0]).callee_name() == 'next':
+                    nx = strip(idx.args[0])
+                    src = iterator_source(b, nx.args[0]) if nx.args else None
+                    if src is not None and src.kind == 'agg' and src.extra.get('path', '').endswith('Range') and len(src.args) == 2:
+                        hi = strip(src.args[1])
+                        if hi.kind == 'call' and hi.callee_name() == 'len' and pred(hi):
+                            loops = b.cfg.loops()
+                            inl = [body for h, body in loops.items() if nx.point[0] in body]
+                            body = min(inl, key=len) if inl else set()
+                            shrink = [m for m in b.calls if m.point[0] in body and m.callee_name() in ('swap_remove', 'remove', 'pop', 'truncate', 'clear', 'retain', 'drain', 'split_off') and m.args and pred_base(m.args[0], fields)]
+                            rng_ok = not shrink
+                if rng_ok:
+                    ctx.add(RULE, fn, 'seg-index(%s)' % tgt.name, 'ok', 'index iterates the range up to %s.len(), and the vector is not shrunk inside the loop' % '.'.join(fields), props, line)
+                    continue
                 ctx.add(RULE, fn, 'seg-index(%s)' % tgt.name, 'violation', '%s(%s) is not dominated by a bound check against %s.len()' % (tgt.name, show(idx, 3), '.'.join(fields)), props, line)
                 continue
             # no mutation of that vector and no reassignment of the index between the check and the use
